@@ -13,7 +13,7 @@ import z3
 
 from symx import loader
 from symx.core import Sym, SymBool, Ctx, symarray, qval, model_value, is_nan
-from symx.report import fl
+from symx.report import fl, concretiser
 
 FUNCTIONS_Q = ["hvsr_curve.HvsrCurve._find_peak_unbounded", "hvsr_curve.HvsrCurve._search_range_to_index_range",
                "hvsr_curve.HvsrCurve._find_peak_bounded", "hvsr_curve.HvsrCurve.update_peaks_bounded",
@@ -149,11 +149,13 @@ def negated_peak_obligation(frq, a, lo, hi, pf, pa):
 
 
 def _vals(m, arr):
-    return [fl(model_value(m, Sym.lift(x))) for x in arr]
+    val = concretiser(m)
+    return [val(x) for x in arr]
 
 
 def _rng(m, lo, hi):
-    return [None if lo is None else fl(model_value(m, lo.e)), None if hi is None else fl(model_value(m, hi.e))]
+    val = concretiser(m)
+    return [val(lo), val(hi)]
 
 
 def curve_witness(cls, frq, amps, ranges):
@@ -169,8 +171,8 @@ def add_validation(rep, ctx, cls, frq, amps, ranges, got):
     if r != z3.sat:
         return
     spec = curve_witness(cls, frq, amps, ranges)(m)
-    spec["expect"] = [[("nan" if (pf is None or is_nan(pf)) else fl(model_value(m, Sym.lift(pf)))),
-                       ("nan" if (pa is None or is_nan(pa)) else fl(model_value(m, Sym.lift(pa))))] for pf, pa in got]
+    val = concretiser(m)
+    spec["expect"] = [["nan" if pf is None else val(pf), "nan" if pa is None else val(pa)] for pf, pa in got]
     spec["instance"] = rep.name
     rep.validation(spec)
     rep.sample({"frequency": spec["frequency"], "amplitude": spec["amplitude"], "ranges": spec["ranges"], "reported": spec["expect"]})
